@@ -20,7 +20,8 @@ reg(Prop(
          ' io::write to a device that accepts k < sizeof(T) bytes (eof from overflow, or throwing): the stream must not stay good(), only a prefix of the encoding arrives. Wide strings with code units that are not characters (surrogates, > U+10FFFF, negative wchar_t) in six contexts: narrow returns nothing or a string that widens back to the input.'
          ' A codecvt facet that keeps state between calls (UTF-16 surrogate pairs on the wide side): prefixes of every length 0..40 before 1-3 pairs, so that the output buffer fills while the state is non-initial.'
          ' Every tenth integer conversion is preceded, on the same thread, by a conversion whose operator<< leaves hex | showbase | fill set and by one that converts something itself while being written.'
-         ' The first conversions of every harness process run under LC_ALL=C; the environment is then switched back to the UTF-8 locale (the locale-less wrappers read the environment at the time of the call).',
+         ' The first conversions of every harness process run under LC_ALL=C; the environment is then switched back to the UTF-8 locale (the locale-less wrappers read the environment at the time of the call).'
+         ' One read-write stream as a queue for vectors and dims: write, read back to the end, write, read (three times); the stream stays good().',
     assumptions=COMMON_ASSUMPTIONS + [
         'the UTF-8 locale is C.utf8 (selected explicitly and via LC_ALL for the locale-less overloads); glibc\'s codecvt facet is the codec',
         'for signed/unsigned char the iostream extraction reads a character, so only "the same value or nothing" is required there'],
